@@ -193,6 +193,21 @@ class C06(Check):
             t = sorted(tags) + (["has_offender"] if j is not None else ["no_offender"])
             nt = ("offender_nonvariable_path" in tags and j is not None) or "measure_reset_use" in tags or "recycle" in tags
             stats.record(case, nt, sample={"main": src[src.index("function main"):], "first_offender": j}, tags=t)
+        # the same program as a 2-shot run: the CLI configures the evaluators of all shots but the last differently (no QASM
+        # log, no exit warnings); the measured-qubit rule must not depend on that.  The sequences have no outcome-dependent
+        # control flow, so every shot has the same first offender.
+        r2s = progrun.run_cli(self.drv, sc, src, ["--shots=2"], env={"BLOCH_VERIF_SHOT_SEED": str(case.get("seed", 1))})
+        if not r2s.proc.timeout:
+            if r2s.proc.crashed() or r2s.rc not in (0, 1):
+                return {"why": "interpreter died in a 2-shot run", "source": src, **r2s.proc.brief()}
+            if j is None and r2s.rc != 0:
+                return {"why": f"no operation touches a measured qubit, yet the 2-shot run failed: {r2s.stderr_lines[-1:]}", "source": src}
+            if j is not None and (r2s.rc != 1 or not r2s.diag):
+                return {"why": f"operation {j} ({case['ops'][j]}) touches a measured qubit but the 2-shot run completed (rc={r2s.rc})",
+                        "source": src}
+            if j is not None and r2s.diag["line"] <= 0:
+                return {"why": f"2-shot run: runtime error without location (simulator-side guard fired: the two flags disagree): "
+                               f"{r2s.diag['msg']}", "source": src}
         if j is None:
             if r.rc != 0:
                 return {"why": f"no operation touches a measured qubit, yet the run failed: {r.stderr_lines[-1:]}", "source": src}
